@@ -30,6 +30,15 @@ pub fn c09(ctx: &RunCtx) -> Vec<Finding> {
 /// C01: accepted by the symbolic stack check
 pub fn c01(ctx: &RunCtx) -> Vec<Finding> {
     let mut v = vec![];
+    if let (Some(out), Err(e)) = (ctx.res.bytes(), ctx.ops) {
+        // the reference disassembler cannot accept a stream it cannot decode
+        v.push(f(
+            "C01",
+            format!("undecodable:{}", out.get(e.pos).map(|c| lexer::name(*c)).unwrap_or("eof")),
+            format!("the disassembler cannot decode the output at byte {}: {}", e.pos, e.msg),
+        ));
+        return v;
+    }
     let (Ok((ops, end)), Some(m)) = (ctx.ops, ctx.m) else { return v };
     if let Some(r) = &m.reject {
         v.push(f(
